@@ -365,3 +365,60 @@ Proof.
       right. symmetry in hq. apply range_nil_inv in hq. rewrite range_empty by lia. subst seq. auto. }
     s_flags st; s_finish Hq'.
 Qed.
+
+Lemma Inv_reach ls t : srun sinit ls = Some t -> Inv t.
+Proof. intros Hr. exact (srun_invariant Inv Inv_step ls _ _ Inv_init Hr). Qed.
+
+(* the invariant of the stream with table index [i] *)
+Lemma Inv_nat t (i : nat) :
+  Inv t -> sinv (In (Z.of_nat i) (charged t)) (tk_of (Z.of_nat i) (taken t)) (get_s (streams t) i).
+Proof.
+  intros HI. assert (H := I_s _ HI (Z.of_nat i) ltac:(lia)). unfold sget in H. rewrite Nat2Z.id in H. exact H.
+Qed.
+
+Lemma not_In_existsb s l : ~ In s l -> existsb (Z.eqb s) l = false.
+Proof.
+  intros H. destruct (existsb (Z.eqb s) l) eqn:E; [|reflexivity]. exfalso. apply existsb_exists in E.
+  destruct E as (x & Hx & Hs). apply Z.eqb_eq in Hs. subst. exact (H Hx).
+Qed.
+
+Lemma range_length a b : length (range a b) = Z.to_nat (b - a + 1).
+Proof. unfold range. rewrite map_length, seq_length. reflexivity. Qed.
+
+Lemma range_NoDup a b : NoDup (range a b).
+Proof.
+  unfold range. apply FinFun.Injective_map_NoDup; [intros x y Hxy; lia|apply seq_NoDup].
+Qed.
+
+(* ------------------------------------------------------------------------------------------- *)
+(* a stream stays attached until a tryDetach succeeds, and that needs awaySeq = commitSeq        *)
+
+Lemma att_lost_step t l t' i :
+  0 <= i -> sstep t l = Some t' -> att (sget t i) = true -> att (sget t' i) = false ->
+  exists b, l = SDetach i b /\ det (sget t i) = true /\ away (sget t i) = scommit (sget t i).
+Proof.
+  intros Hi H Ha Hb. unfold sstep in H. unfold sget in *.
+  destruct (scrashed t) eqn:Ecr; [discriminate|]. destruct (label_stream l <? 0) eqn:Es; [discriminate|].
+  destruct l as [s seq kind|s|s|s|s seq kind|s|s ne|s seq|s|s seq]; cbn [label_stream] in Es; cbv zeta in H;
+    s_split H; s_bnorm; injection H as <-;
+    cbn [upd_stream crash streams] in Hb; try congruence;
+    (destruct (Z.eq_dec s i) as [->|Hne];
+     [rewrite get_set_same in Hb; unfold mk, set_pend, set_own in Hb; cbn [att] in Hb; try congruence
+     |rewrite get_set_other in Hb by lia; congruence]).
+  exists ne. auto.
+Qed.
+
+Lemma att_lost_run ls : forall t t' i,
+  0 <= i -> srun t ls = Some t' -> att (sget t i) = true -> att (sget t' i) = false ->
+  exists la b lb tm, ls = la ++ SDetach i b :: lb /\ srun t la = Some tm /\
+    att (sget tm i) = true /\ det (sget tm i) = true /\ away (sget tm i) = scommit (sget tm i).
+Proof.
+  induction ls as [|l r IH]; intros t t' i Hi Hr Ha Hb; cbn [srun] in Hr.
+  - inversion Hr; subst. congruence.
+  - destruct (sstep t l) as [t1|] eqn:E; [|discriminate].
+    destruct (att (sget t1 i)) eqn:Ea1.
+    + destruct (IH t1 t' i Hi Hr Ea1 Hb) as (la & b & lb & tm & -> & Hla & Hm).
+      exists (l :: la), b, lb, tm. split; [reflexivity|]. split; [cbn [srun]; rewrite E; exact Hla|exact Hm].
+    + destruct (att_lost_step t l t1 i Hi E Ha Ea1) as (b & -> & Hd & Hac).
+      exists [], b, r, t. split; [reflexivity|]. split; [reflexivity|]. auto.
+Qed.
